@@ -19,7 +19,11 @@ RULE = (
     'geometry/energy coordinates; thorough enumerates all 262144 configurations (exhaustive), quick takes all '
     'subsets of size <= 2 and >= 9 plus a stratified sample; each configuration gets fresh random, mutually '
     'inconsistent coordinate values (so precedence of supplied coordinates is visible), alternating DataArray / '
-    'Dataset and dense / binned; distinct = configurations; trivial = none'
+    'Dataset and dense / binned; both tiers add ~4300 cases with degenerate contents of the supplied coordinates '
+    '(for every origin x target x scatter: subsets along the derivation depth, the shallowest sufficient subset '
+    'and two random ones; empty pixel selection, length-1 and 0-d single pixel, binned data without events; every '
+    'coordinate the model reads made NaN everywhere / NaN for one pixel / infinite / zero): presence decides, '
+    'contents do not; distinct = configurations x contents class; trivial = none'
 )
 ASSUMPTIONS = [
     'the derivability rule is the one of the user guide: present coordinates are used, missing ones derived '
@@ -112,7 +116,7 @@ def make_values(rng, origin):
 OUTER_NAMES = ('source_position', 'incident_beam', 'L1', 'incident_energy')
 
 
-def build(rng, origin, present, values, container, binned, outer=None):
+def build(rng, origin, present, values, container, binned, outer=None, noevents=False):
     def var(name):
         x = values[name]
         if outer and name in OUTER_NAMES:
@@ -143,10 +147,17 @@ def build(rng, origin, present, values, container, binned, outer=None):
     coords = {n: var(n) for n in [*present, *AUX]}
     if binned:
         # one event per pixel: event coordinate = origin
-        ev = sc.DataArray(sc.ones(dims=['event'], shape=[N], unit='counts'),
-                          coords={origin: sc.array(dims=['event'], values=values[origin], unit=UNIT[origin])})
-        data = sc.bins(begin=sc.arange('pixel', N, unit=None), end=sc.arange('pixel', 1, N + 1, unit=None),
-                       dim='event', data=ev)
+        if noevents:
+            # every pixel has an empty event list
+            ev = sc.DataArray(sc.ones(dims=['event'], shape=[0], unit='counts'),
+                              coords={origin: sc.array(dims=['event'], values=values[origin][0:0], unit=UNIT[origin])})
+            zero = sc.zeros(dims=['pixel'], shape=[N], dtype='int64', unit=None)
+            data = sc.bins(begin=zero, end=zero.copy(), dim='event', data=ev)
+        else:
+            ev = sc.DataArray(sc.ones(dims=['event'], shape=[N], unit='counts'),
+                              coords={origin: sc.array(dims=['event'], values=values[origin], unit=UNIT[origin])})
+            data = sc.bins(begin=sc.arange('pixel', N, unit=None), end=sc.arange('pixel', 1, N + 1, unit=None),
+                           dim='event', data=ev)
         da = sc.DataArray(data, coords=coords)
     else:
         coords[origin] = var(origin)
@@ -163,17 +174,143 @@ def model_values(values):
     return out
 
 
+def _events(c):
+    """Event values of the bins that belong to `c` (a slice of binned data shares the buffer of the whole)."""
+    k = c.bins.constituents
+    d = k['data']
+    vals = np.asarray(d.values)
+    b = np.asarray(k['begin'].values).reshape(-1)
+    e = np.asarray(k['end'].values).reshape(-1)
+    if len(b) == 0:
+        return vals[0:0], d.unit
+    if b[0] == 0 and e[-1] == len(vals) and np.array_equal(b[1:], e[:-1]):
+        return vals, d.unit
+    return np.concatenate([vals[i:j] for i, j in zip(b, e, strict=True)]), d.unit
+
+
 def get_coord(res, name, binned):
+    """(values, unit, event_level)"""
     obj = res['a'] if isinstance(res, sc.Dataset) else res
     if binned and name in obj.bins.coords:
-        c = obj.bins.coords[name]
-        return np.asarray(c.bins.constituents['data'].values), c.bins.constituents['data'].unit
+        return (*_events(obj.bins.coords[name]), True)
     if name in obj.coords:
         c = obj.coords[name]
         if c.bins is not None:
-            return np.asarray(c.bins.constituents['data'].values), c.bins.constituents['data'].unit
-        return np.asarray(c.values), c.unit
-    return None, None
+            return (*_events(c), True)
+        return np.asarray(c.values), c.unit, False
+    return None, None, False
+
+
+# ------------------------------------------- degenerate contents of supplied coordinates ---
+# "every subset of coordinates present; random coordinate values": whether a coordinate is present decides what
+# is derived, never what it contains.  The contents classes below are part of every run.
+PER_PIXEL = ('tof', 'wavelength', 'energy', 'Q', 'position', 'scattered_beam', 'L2', 'Ltotal', 'two_theta',
+             'final_energy')
+VECTORS = ('position', 'source_position', 'sample_position', 'incident_beam', 'scattered_beam')
+VECTOR_TARGETS = ('incident_beam', 'scattered_beam', 'Q_vec', 'hkl_vec')
+SLICES = {'empty': slice(0, 0), 'one': slice(1, 2), 'scalar': 1}
+N_EVENTS = {None: N, 'empty': 0, 'one': 1, 'scalar': 1, 'noevents': 0}
+CONTENTS = {
+    'empty': 'empty pixel selection (zero-length coordinates)',
+    'one': 'single pixel, length-1 slice',
+    'scalar': 'single pixel by integer index (0-d coordinates)',
+    'noevents': 'binned data without any event',
+    'nan_all': 'supplied coordinate NaN everywhere',
+    'nan_some': 'supplied coordinate NaN for one pixel',
+    'inf_all': 'supplied coordinate infinite',
+    'zero_all': 'supplied coordinate zero',
+    'one+nan_all': 'single pixel (length-1 slice) whose supplied coordinate is NaN',
+    'scalar+nan_all': 'single pixel (0-d) whose supplied coordinate is NaN',
+}
+
+
+def apply_special(values, name, kind):
+    x = np.array(values[name], dtype=np.float64)
+    if kind == 'nan_some' and name in PER_PIXEL:
+        x[1] = np.nan
+    else:
+        x[...] = {'nan_all': np.nan, 'nan_some': np.nan, 'inf_all': np.inf, 'zero_all': 0.0}[kind]
+    values[name] = x if x.ndim else np.float64(x)
+
+
+def select_values(values, select):
+    sl = SLICES[select]
+    return {k: (np.asarray(x)[sl] if k in PER_PIXEL else x) for k, x in values.items()}
+
+
+def check_supplied(ctx, data, res, present, case, vkeys):
+    src = data['a'] if isinstance(data, sc.Dataset) else data
+    obj = res['a'] if isinstance(res, sc.Dataset) else res
+    for nm in present:
+        if nm not in obj.coords:
+            continue
+        a, b = obj.coords[nm], src.coords[nm]
+        ctx.event('supplied_kept')
+        if a.unit != b.unit or not np.array_equal(np.asarray(a.values), np.asarray(b.values), equal_nan=True):
+            ctx.violation('supplied_replaced', f'the supplied coordinate {nm} comes back with different contents '
+                          f'({np.asarray(a.values).tolist()} {a.unit} instead of {np.asarray(b.values).tolist()} {b.unit})',
+                          case, name=nm, **vkeys)
+
+
+_BIT = {n: 1 << i for i, n in enumerate(G.SUBSET)}
+_LADDER = ('Ltotal', 'two_theta', 'L1', 'L2', 'incident_beam', 'scattered_beam')
+
+
+def variant_plan(seed):
+    """[(index, variant)]: for every (origin, target, scatter), coordinate subsets along the derivation depth
+    (everything supplied ... only positions), the shallowest sufficient subset of the model, and two random
+    ones; each with an empty pixel selection and one other selection, and - where the model derives the target -
+    each coordinate the derivation reads made NaN everywhere plus one other special content, and a single-pixel
+    selection whose per-pixel coordinate is NaN."""
+    rng = np.random.Generator(np.random.PCG64([seed, 98]))
+    out, j, seen = [], 0, set()
+    for base in range(4 * 16 * 2):
+        origin, target, scatter, _ = config_of(base * 2048)
+        subsets = []
+        for step in range(len(_LADDER) + 1):
+            sub = [n for n in G.SUBSET[:9] if n not in _LADDER[:step]]
+            if target == 'energy_transfer':
+                sub.append(('incident_energy', 'final_energy')[(base // 2 + step) % 2])
+            elif step % 4 == 3:  # bystander energy coordinate
+                sub.append(('incident_energy', 'final_energy')[(base // 2 + step // 4) % 2])
+            subsets.append(sub)
+        for mode in (('direct_inelastic', 'indirect_inelastic') if target == 'energy_transfer' else ('elastic',)):
+            sh = G.shallow_inputs(target, G.rules(origin, target, scatter, mode), given=(origin, *AUX))
+            if sh:
+                subsets.append(sh)
+        for _ in range(2):
+            subsets.append([n for n in G.SUBSET if rng.random() < 0.5])
+        for sub in subsets:
+            index = base * 2048 + sum(_BIT[n] for n in sub)
+            if index in seen:
+                continue
+            seen.add(index)
+            present = [n for n in G.SUBSET if n in sub]
+            verdict, nodes, mode = G.decide(origin, target, scatter, [*present, *AUX, origin])
+            todo = [('empty', None), (('one', 'scalar', 'noevents')[j % 3], None)]
+            if verdict == 'ok':
+                leaves = G.used_inputs(target, [*present, *AUX, origin], G.table_for(origin, target, scatter, mode))
+                pp = [n for n in leaves if n in PER_PIXEL and n != origin] or [n for n in leaves if n in PER_PIXEL]
+                if pp and todo[1][0] in ('one', 'scalar'):
+                    todo.append((todo[1][0], (pp[j % len(pp)], 'nan_all')))
+                for leaf in leaves:
+                    if leaf in AUX:
+                        continue
+                    other = (['nan_some'] if leaf in PER_PIXEL else []) + (
+                        ['inf_all', 'zero_all'] if leaf not in VECTORS else [])
+                    todo.append((None, (leaf, 'nan_all')))
+                    if other:
+                        todo.append((None, (leaf, other[(j + len(todo)) % len(other)])))
+            for select, special in todo:
+                v = {'container': ('dataarray', 'dataset')[j % 2], 'binned': j % 4 >= 2 or select == 'noevents',
+                     'copy': j % 8 >= 4}
+                if select:
+                    v['select'] = select
+                if special:
+                    v['special'] = special
+                out.append((index, v))
+                j += 1
+    return out
 
 
 class Watch:
@@ -200,18 +337,32 @@ class Watch:
             self.graph = g
 
 
-def run_config(rng, ctx, scn, CV, watch, index, tracer):
+def run_config(rng, ctx, scn, CV, watch, index, tracer, variant=None):
     origin, target, scatter, present = config_of(index)
-    container = 'dataset' if index % 3 == 0 else 'dataarray'
-    binned = index % 4 == 1
     values = make_values(rng, origin)
-    # one configuration in nine: source-side coordinates vary along a dimension of their own, named so that
-    # it sorts before or after 'pixel'
-    outer = ['arun', 'run'][index % 2] if index % 9 == 4 and not binned else None
-    data = build(rng, origin, present, values, container, binned, outer=outer)
+    select = special = None
+    if variant is None:
+        container = 'dataset' if index % 3 == 0 else 'dataarray'
+        binned = index % 4 == 1
+        # one configuration in nine: source-side coordinates vary along a dimension of their own, named so that
+        # it sorts before or after 'pixel'
+        outer = ['arun', 'run'][index % 2] if index % 9 == 4 and not binned else None
+        data = build(rng, origin, present, values, container, binned, outer=outer)
+    else:
+        # degenerate contents of the supplied coordinates: presence decides, values (and their number) do not
+        container, binned, outer = variant['container'], variant['binned'], None
+        select, special = variant.get('select'), variant.get('special')
+        if special:
+            apply_special(values, *special)
+        data = build(rng, origin, present, values, container, binned, noevents=select == 'noevents')
+        if select in SLICES:
+            data = data['pixel', SLICES[select]]
+            if variant.get('copy'):
+                data = data.copy()
+            values = select_values(values, select)
     # a supplied coordinate counts whatever its alignment flag says (integer slicing and earlier conversions
     # leave coordinates unaligned); one configuration in eleven supplies all of them unaligned
-    unaligned = index % 11 == 7
+    unaligned = index % 11 == 7 and variant is None
     if unaligned:
         for nm in present:
             try:
@@ -223,6 +374,10 @@ def run_config(rng, ctx, scn, CV, watch, index, tracer):
     case = {'origin': origin, 'target': target, 'scatter': scatter, 'present': present, 'container': container,
             'binned': binned, 'model': verdict, 'model_detail': nodes, 'index': index, 'outer_dim': outer,
             'unaligned': unaligned}
+    vkeys = {}
+    if variant is not None:
+        case['variant'] = {k: v for k, v in variant.items() if k not in ('container', 'binned')}
+        vkeys = {'contents': '+'.join(x for x in (select, special and special[1]) if x)}
     watch.kernels, watch.graph, watch.k_depth = [], None, 0
     # the flag is a truth value: callers also pass numpy booleans (np.any(...)) or 0/1
     flag_form = index % 7
@@ -251,13 +406,16 @@ def run_config(rng, ctx, scn, CV, watch, index, tracer):
     used_graph = watch.graph
     ctx.event('convert')
     ctx.count('model:' + verdict)
+    if variant is not None:
+        ctx.hit(CONTENTS[vkeys['contents']])
+        ctx.count(f'contents:{vkeys["contents"]}:{verdict}')
     if outcome != verdict:
         if verdict == 'ok':
             ctx.violation('refused_derivable', f'convert raised RuntimeError although {target} is derivable from the '
-                          f'coordinates present ({err})', case, target=target, origin=origin)
+                          f'coordinates present ({err})', case, target=target, origin=origin, **vkeys)
         else:
             ctx.violation('answered_underivable', f'convert returned although {target} is not derivable ({nodes})',
-                          case, target=target, origin=origin)
+                          case, target=target, origin=origin, **vkeys)
         return
     # ---- the reported graph is the one that is used
     try:
@@ -294,52 +452,69 @@ def run_config(rng, ctx, scn, CV, watch, index, tracer):
     if graph_key_nodes(reported) != set(table):
         ctx.violation('graph_content', f'reported graph nodes {sorted(graph_key_nodes(reported))} differ from the '
                       f'documented rule set {sorted(table)}', case)
+    # ---- a supplied coordinate is still the supplied one afterwards (never replaced by a derived one)
+    if variant is not None or index % 4 == 2:
+        check_supplied(ctx, data, res, present, case, vkeys)
     # ---- kernels that ran = derivation the model predicts (never a quantity of the wrong mode)
     want_k = sorted(expected_kernel(n, table[n], mode) for n in nodes)
     if sorted(executed) != want_k:
         ctx.violation('wrong_kernels', f'kernels executed {sorted(executed)} but the documented derivation needs '
-                      f'{want_k}', case, mode=mode)
+                      f'{want_k}', case, mode=mode, **vkeys)
         return
     # ---- value
     if outer:
         ctx.event('outer_layout')
         return
     try:
-        mv = G.evaluate(nodes, model_values({k: values[k] for k in [*present, *AUX, origin]}), table, mode)
+        with np.errstate(all='ignore'):
+            mv = G.evaluate(nodes, model_values({k: values[k] for k in [*present, *AUX, origin]}), table, mode)
         want = mv[target]
-        got, unit = get_coord(res, target, binned)
+        got, unit, ev_level = get_coord(res, target, binned)
         if got is None:
-            ctx.violation('no_target', f'result has no coordinate {target}', case)
+            ctx.violation('no_target', f'result has no coordinate {target}', case, **vkeys)
             return
         if target in ('hkl_vec', 'h'):
             f = si.LD(1) if unit == sc.Unit('dimensionless') else None
         else:
             f = si.factor(unit) / si.factor(sc.Unit(UNIT[target]))
         if f is None:
-            ctx.violation('value', f'{target}: unexpected unit {unit}', case)
+            ctx.violation('value', f'{target}: unexpected unit {unit}', case, **vkeys)
             return
         g = got.astype(si.LD) * f
-        w = np.broadcast_to(want, g.shape)
-        if target in ('two_theta',):
-            err = np.abs(g - w)
-        elif target == 'energy_transfer':
-            scale = np.maximum(np.abs(w), np.abs(mv.get('incident_energy', mv.get('final_energy'))))
-            err = np.abs(g - w) / scale
-        elif target == 'time_at_sample':
-            err = np.abs(g - w) / (np.abs(mv['pulse_time']) + np.abs(mv['tof']))
-        elif g.ndim > 1 or target in ('incident_beam', 'scattered_beam', 'Q_vec', 'hkl_vec'):
-            nrm = geom.norm(w)[..., None] if w.ndim > 1 else geom.norm(w)
-            err = np.abs(g - w) / np.where(nrm == 0, 1, nrm)
+        # the result has one value per selected pixel / event, also when there are none
+        if ev_level:
+            shape = (N_EVENTS[select], *np.shape(want)[np.ndim(want) - (target in VECTOR_TARGETS):])
         else:
-            err = si.relerr(g, w)
-        both_nan = np.isnan(g.astype(np.float64)) & np.isnan(np.asarray(w).astype(np.float64))
-        err = np.where(both_nan, 0, err)
-        worst = float(np.max(err))
+            shape = np.shape(want)
+        if g.shape != shape:
+            ctx.violation('value_shape', f'{target} from {origin}: the result coordinate has shape {g.shape}, the '
+                          f'coordinates present give {shape}', case, target=target, **vkeys)
+            return
+        w = np.broadcast_to(want, g.shape) if g.size else g  # no pixel / no event: only the shape is judged
+        with np.errstate(all='ignore'):
+            if not g.size:
+                err = np.zeros(g.shape)
+            elif target in ('two_theta',):
+                err = np.abs(g - w)
+            elif target == 'energy_transfer':
+                scale = np.maximum(np.abs(w), np.abs(mv.get('incident_energy', mv.get('final_energy'))))
+                err = np.abs(g - w) / scale
+            elif target == 'time_at_sample':
+                err = np.abs(g - w) / (np.abs(mv['pulse_time']) + np.abs(mv['tof']))
+            elif g.ndim > 1 or target in VECTOR_TARGETS:
+                nrm = geom.norm(w)[..., None] if w.ndim > 1 else geom.norm(w)
+                err = np.abs(g - w) / np.where(nrm == 0, 1, nrm)
+            else:
+                err = si.relerr(g, w)
+            # NaN where the formulas give NaN, the same infinity where they give one
+            same = (np.isnan(g.astype(np.float64)) & np.isnan(np.asarray(w).astype(np.float64))) | (g == w)
+        err = np.where(same, 0, err)
+        worst = float(np.max(err)) if err.size else 0.0
     except Exception:  # noqa: BLE001
         ctx.oracle_error(f'C02 value {origin}->{target}')
         return
     # ---- chained conversion: converting the *result* again must still honour the supplied coordinates
-    if index % 5 == 0:
+    if index % 5 == 0 and variant is None:
         t2 = G.TARGETS[(index // 5) % len(G.TARGETS)]
         v2, nodes2, mode2 = G.decide(origin, t2, scatter, [*present, *AUX, origin])
         case2 = dict(case, chained_after=target, target=t2, model=v2)
@@ -361,7 +536,7 @@ def run_config(rng, ctx, scn, CV, watch, index, tracer):
             try:
                 table2 = G.table_for(origin, t2, scatter, mode2)
                 mv2 = G.evaluate(nodes2, model_values({k: values[k] for k in [*present, *AUX, origin]}), table2, mode2)
-                g2, u2 = get_coord(res2, t2, binned)
+                g2, u2, _ = get_coord(res2, t2, binned)
                 f2 = si.factor(u2) / si.factor(sc.Unit(UNIT[t2]))
                 e2 = si.relerr(g2.astype(si.LD) * f2, np.broadcast_to(mv2[t2], g2.shape))
                 w2 = float(np.max(e2))
@@ -373,11 +548,13 @@ def run_config(rng, ctx, scn, CV, watch, index, tracer):
             except Exception:  # noqa: BLE001
                 ctx.oracle_error(f'C02 chained {origin}->{target}->{t2}')
     ctx.event('value')
+    if variant is not None:
+        ctx.event('value:' + vkeys['contents'])
     ctx.dev(f'value.{target}', worst)
     if not (worst <= 1e-9):
         ctx.violation('value', f'{target} from {origin}: differs from the documented formulas applied to the '
                       f'coordinates present by {worst:.3g} (supplied coordinates take precedence)', case,
-                      target=target, origin=origin)
+                      target=target, origin=origin, **vkeys)
 
 
 def quick_indices(rng):
@@ -397,9 +574,16 @@ def plan(tier, seed):
 
 
 def requirements(tier):
-    return {'events': {'convert': 5000, 'value': 1000, 'graph_identity': 1000, 'outer_layout': 100, 'chained': 200},
-            'counters': {'model:ok': 1000, 'model:refuse': 1000},
-            'forced': ['supplied coordinates unaligned']}
+    ev = {'convert': 5000, 'value': 1000, 'graph_identity': 1000, 'outer_layout': 100, 'chained': 200,
+          'supplied_kept': 5000}
+    # every contents class reached the value comparison, not only the outcome
+    ev.update({'value:' + k: n for k, n in (('empty', 200), ('one', 50), ('scalar', 50), ('noevents', 50),
+                                            ('nan_all', 300), ('nan_some', 100), ('inf_all', 50), ('zero_all', 50),
+                                            ('one+nan_all', 30), ('scalar+nan_all', 30))})
+    return {'events': ev,
+            'counters': {'model:ok': 1000, 'model:refuse': 1000, 'contents:empty:ok': 200,
+                         'contents:empty:refuse': 200},
+            'forced': ['supplied coordinates unaligned', *CONTENTS.values()]}
 
 
 def run(shard, ctx):
@@ -433,6 +617,18 @@ def run(shard, ctx):
             ctx.case(index)
             if k < 2 or (ctx.n_violations > before and len(ctx.samples) < 6):
                 ctx.sample({'index': index, 'origin': o, 'target': t, 'scatter': s, 'present': p})
+        # degenerate contents of the supplied coordinates (both tiers, the same deterministic classes)
+        vplan = variant_plan(shard['seed'])
+        ctx.extra['degenerate_content_cases'] = len(vplan)
+        for k, (index, variant) in enumerate(vplan[shard['part']::shard['parts']]):
+            before = ctx.n_violations
+            vrng = np.random.Generator(np.random.PCG64([shard['seed'], index, 3, k]))
+            run_config(vrng, ctx, scn, CV, watch, index, tr, variant=variant)
+            tag = ':'.join([variant.get('select', ''), *variant.get('special', ())])
+            ctx.case((index, tag, variant['container'], variant['binned']))
+            if k < 2 or (ctx.n_violations > before and len(ctx.samples) < 8):
+                o, t, s, p = config_of(index)
+                ctx.sample({'index': index, 'origin': o, 'target': t, 'scatter': s, 'present': p, 'variant': variant})
 
 
 TECHNIQUE = ('runtime outcome monitor on convert() + trace of the kernels that ran and of the graph handed to '
